@@ -2,7 +2,7 @@
 # builds the C harness objects against the CURRENT tree (called by scripts/build.sh)
 set -e
 . "$(dirname "$0")/../scripts/env.sh"
-mkdir -p "$B/c"
-gcc -O1 -g -c -o "$B/c/ledger.o" "$VERIF/c/ledger.c"
+mkdir -p "$VERIF_VDIR/c"
+gcc -O1 -g -c -o "$VERIF_VDIR/c/ledger.o" "$VERIF/c/ledger.c"
 for f in "$VERIF"/c/build_*.sh; do [ -f "$f" ] && bash "$f"; done
 exit 0
